@@ -7,6 +7,8 @@ pub mod c01;
 pub mod children;
 pub mod corpus;
 pub mod c03;
+pub mod c15;
+pub mod c16;
 pub mod c17;
 pub mod c02;
 pub mod c04;
@@ -15,6 +17,7 @@ pub mod c20;
 pub mod c05;
 pub mod c18;
 pub mod c14;
+pub mod c07;
 pub mod c08;
 pub mod c09;
 pub mod c10;
@@ -27,6 +30,8 @@ pub fn run(ctx: &Ctx) -> i32 {
     match ctx.id.as_str() {
         "C01" => c01::run(ctx),
         "C03" => c03::run(ctx),
+        "C15" => c15::run(ctx),
+        "C16" => c16::run(ctx),
         "C17" => c17::run(ctx),
         "C02" => c02::run(ctx),
         "C05" => c05::run(ctx),
@@ -35,6 +40,7 @@ pub fn run(ctx: &Ctx) -> i32 {
         "C04" => c04::run(ctx),
         "C18" => c18::run(ctx),
         "C14" => c14::run(ctx),
+        "C07" => c07::run(ctx),
         "C08" => c08::run(ctx),
         "C09" => c09::run(ctx),
         "C10" => c10::run(ctx),
@@ -53,6 +59,8 @@ fn replay_one(id: &str, w: &Value) -> Result<Vec<Violation>, String> {
     match id {
         "C01" => Ok(c01::replay(w)),
         "C03" => Ok(c03::replay(w)),
+        "C15" => Ok(c15::replay(w)),
+        "C16" => Ok(c16::replay(w)),
         "C17" => Ok(c17::replay(w)),
         "C02" => Ok(c02::replay(w)),
         "C05" => Ok(c05::replay(w)),
@@ -61,6 +69,7 @@ fn replay_one(id: &str, w: &Value) -> Result<Vec<Violation>, String> {
         "C04" => Ok(c04::replay(w)),
         "C18" => Ok(c18::replay(w)),
         "C14" => Ok(c14::replay(w)),
+        "C07" => Ok(c07::replay(w)),
         "C08" => Ok(c08::replay(w)),
         "C09" => Ok(c09::replay(w)),
         "C10" => Ok(c10::replay(w)),
@@ -123,6 +132,7 @@ pub fn replay(ctx: &Ctx, path: &str) -> i32 {
 pub fn child(args: &[String]) -> i32 {
     match args.first().map(|s| s.as_str()) {
         Some("records") if args.len() >= 5 => children::child_records(&args[1..]),
+        Some("c15") => c15::child_dump(),
         _ => {
             eprintln!("unknown child mode {args:?}");
             2
